@@ -6,6 +6,13 @@ HERE = os.path.dirname(os.path.dirname(os.path.abspath(__file__)))
 
 CLAIMED = {
     # id: (technique, level text, level note, design ref)
+    "C01": ("interval inclusion between producer and consumer limits (A4), sibling shape comparison of the prover's and verifier's row-hash code over resolved callees / generic arguments / captured variables, dispatch-table extraction (A10)",
+            "Decides three necessary conditions for honest proofs to verify: what the prover can emit (unique query count, segment "
+            "widths) fits what Table::from_bytes accepts; RowMatrix::commit_to_rows and the verifier's hash_row apply the same "
+            "partition rule with the element type and width of each table; prover and verifier map every FieldExtension variant "
+            "to the extension type of the matching degree behind that type's is_supported(). That the prover's numbers satisfy "
+            "the verifier's equations is value-level and not decided.",
+            "rustc MIR incl. resolved generic arguments; interval engine", "DESIGN.md section 4, C01"),
     "C02": ("MIR dominance chain over resolved public-coin / channel events, must-pass-through guards, def-use provenance in verify, perform_verification, evaluate_constraints",
             "Decides that the checks soundness rests on lie on every accepting path of verify -> perform_verification for all "
             "three extension arms: options validated first; coin seed binds context and public inputs; every challenge drawn "
@@ -31,6 +38,12 @@ CLAIMED = {
             "are outside the decided clause.",
             "rustc MIR incl. overflow/bounds Assert terminators; the may-panic table for core/alloc leaves; reviewed reasons in "
             "wfstatic/tables/panic_sites.json; user Air implementations do not panic", "DESIGN.md section 4, C05"),
+    "C08": ("dispatch-table extraction (A10) on the four folding-factor dispatch sites, accepted-set extraction from constructor guards, shared-callee checks on prover and verifier layer loops",
+            "Decides the dispatch/limit clause: folding factor k selects the N = k instantiation on the prover (build_layer, "
+            "query_layer) and the verifier (verify_generic, read_layer_queries, get_query_values) for exactly the set "
+            "{2,4,8,16} that FriOptions::new and ProofOptions::new accept; both sides fold positions with the same function, "
+            "shrink the domain once per layer and share num_fri_layers. The algebra of folding is value-level and not decided.",
+            "rustc MIR incl. const-generic arguments", "DESIGN.md section 4, C08"),
     "C09": ("MIR must-pass-through (per-iteration and function-level edge cuts), comparison-direction canonicalisation, def-use provenance on FriVerifier::{new,verify,verify_generic}",
             "Decides that each rejection check the FRI verifier's soundness rests on (length mismatch, unsupported folding "
             "factor, per-layer commitment opening, per-layer folding consistency, degree truncation, remainder degree bound, "
@@ -47,6 +60,12 @@ CLAIMED = {
             "delegates to such a decoder, little-endian only. Irreducibility of extension polynomials / Frobenius constants is "
             "not decided (they live in arithmetic code).",
             "rustc const evaluator; Python big-integer arithmetic; Sorenson-Webster bound for deterministic Miller-Rabin", "DESIGN.md section 4, C11"),
+    "C15": ("MIR branch/dominance rules on hash_elements of every byte-digest ElementHasher, constant evaluation of IS_CANONICAL, range/length extraction for merge_with_int buffers and the 24-byte truncation",
+            "Decides the representation clause: raw element memory is hashed only on the IS_CANONICAL edge (and IS_CANONICAL is "
+            "true exactly for fields whose as_int is the identity), the other edge hashes the canonical serialisation; "
+            "merge_with_int hashes digest || value.to_le_bytes() in a buffer of digest_len + 8; merge/merge_many hash the "
+            "concatenated digests; Blake3_192 truncates to 24 bytes everywhere. Equality with the primitive needs execution.",
+            "rustc MIR and constant evaluation", "DESIGN.md section 4, C15"),
     "C19": ("MIR must-pass-through guards on MerkleTree::verify/verify_batch/get_root/into_openings/map_indexes + the A5 panic inventory restricted to the batch Merkle entry points",
             "Decides that single and batch verification accept only behind the root comparison over values derived from leaf, "
             "proof nodes and (by control) the index, that get_root/into_openings validate indexes through map_indexes(..)? whose "
@@ -75,6 +94,12 @@ CLAIMED = {
             "arbitrary bytes is proved in range, covered by a re-verified reviewed reason (check_eor guards), or reported. "
             "The vint64 arithmetic and value equality of round trips are value-level and not decided.",
             "rustc MIR; reviewed reasons in wfstatic/tables/panic_sites.json", "DESIGN.md section 4, C26"),
+    "C28": ("the C01.R2 sibling comparison evaluated on the default and the concurrent build's MIR",
+            "Decides the partition-rule clause only: row commitments are built from per-row digests under the partition rule the "
+            "verifier applies (same partition_size::<T>, same branch, per-chunk hash_elements, merge_many, buffer length, batch "
+            "offset used for the row index, V::new over the filled digest vector), in both builds. That rows equal polynomial "
+            "values is numerical and not decided.",
+            "rustc MIR of both feature configurations", "DESIGN.md section 4, C28"),
 }
 
 NOT_APPLICABLE = {
